@@ -89,6 +89,7 @@ type pwLog struct {
 	recvCalls   []int // number of wrapped calls made when each value was logged
 	sawClosed   bool
 	viol        [][2]string
+	deviations  int // wrapped-writer calls that did not follow the script (other portions than the caller's)
 }
 
 func (l *pwLog) violate(kind, detail string) {
@@ -105,15 +106,28 @@ type pwScriptW struct {
 func (w *pwScriptW) answer(method string, length int) (int, error) {
 	w.log.mu.Lock()
 	defer w.log.mu.Unlock()
+	// The script answers call i with (N, Err).  An implementation may legitimately hand the data over in
+	// other portions than the caller's (chunking): that is no violation of the property, so the script
+	// adapts (never reports more than it was given; calls beyond the script succeed completely) and only
+	// notes the deviation - the sums the wrapped writer REPORTED stay the reference for Size().
 	if w.i >= len(w.calls) {
-		w.log.violate("harness", "wrapped writer called more often than scripted")
-		return 0, pwErrScripted
+		w.log.deviations++
+		w.method = append(w.method, method)
+		prev := 0
+		if k := len(w.log.wrappedSums); k > 0 {
+			prev = w.log.wrappedSums[k-1]
+		}
+		w.log.wrappedSums = append(w.log.wrappedSums, prev+length)
+		return length, nil
 	}
 	c := w.calls[w.i]
 	w.i++
 	w.method = append(w.method, method)
 	if length != c.Len {
-		w.log.violate("harness", fmt.Sprintf("wrapped writer got %d bytes, call has %d", length, c.Len))
+		w.log.deviations++
+		if c.N > length {
+			c.N = length
+		}
 	}
 	prev := 0
 	if k := len(w.log.wrappedSums); k > 0 {
@@ -146,6 +160,7 @@ type pwResult struct {
 	Complete  bool
 	Recv      []int
 	SawClosed bool
+	Deviated  int
 }
 
 func runPwScenario(sc pwScenario) pwResult {
@@ -245,8 +260,11 @@ func runPwScenario(sc pwScenario) pwResult {
 			}
 			inWriteSince.Store(0)
 			size := pw.Size()
-			sum += c.N
 			log.mu.Lock()
+			sum = 0
+			if k := len(log.wrappedSums); k > 0 {
+				sum = log.wrappedSums[k-1] // what the wrapped writer actually reported so far
+			}
 			log.ev = append(log.ev, "w"+strconv.Itoa(n))
 			sizes = append(sizes, size)
 			if size != sum {
@@ -343,7 +361,7 @@ wait:
 	// which method of the wrapped writer was reached (checked for the harness's own sanity: the
 	// model's `callWr` abstracts from it, the property does not mention it)
 	res := pwResult{Trace: append([]string{}, log.ev...), Sizes: sizes, Complete: complete,
-		Recv: append([]int{}, log.recv...), SawClosed: log.sawClosed}
+		Recv: append([]int{}, log.recv...), SawClosed: log.sawClosed, Deviated: log.deviations}
 
 	// ---- direct oracle on the received values -------------------------------------------------
 	sums := log.wrappedSums
@@ -490,7 +508,7 @@ func pwGenCall(r *Rng) pwCall {
 	case 1:
 		c.Len = 1
 	case 2:
-		c.Len = 1 << (10 + r.Intn(7)) // 1 KiB .. 64 KiB
+		c.Len = 1<<(10+r.Intn(8)) + r.Intn(4) // 1 KiB .. 128 KiB (+0..3)
 	default:
 		c.Len = 1 + r.Intn(200)
 	}
@@ -611,6 +629,9 @@ func runProgress(cfg Cfg) {
 		}
 		if len(res.Sizes) == len(sc.Calls) {
 			s.Line("size "+prog, pwIntsStr(res.Sizes))
+		}
+		if res.Deviated > 0 {
+			s.Count("wrapped-writer.called-in-other-portions")
 		}
 		// statistics
 		nr := len(res.Recv)
